@@ -31,6 +31,8 @@ var c10Alphabet = []c10Doc{
 	{"scalar", "5\n", false},
 	{"seq", "- 1\n- 2\n", false},
 	{"str", "hello\n", false},
+	// a file that holds a comment and nothing else counts as one null document (only generated as the sole content of a file)
+	{"comment-only-file", "# only a comment\n", false},
 }
 
 var c10Exprs = []string{
@@ -317,7 +319,10 @@ func c10Histories(maxFiles, maxDocs int) [][][]int {
 			return
 		}
 		for a := range c10Alphabet {
-			if c10Alphabet[a].Lead && len(cur) > 0 && false {
+			if c10Alphabet[a].Name == "comment-only-file" && len(cur) > 0 {
+				continue
+			}
+			if len(cur) > 0 && c10Alphabet[cur[0]].Name == "comment-only-file" {
 				continue
 			}
 			rec(append(cur, a))
@@ -352,7 +357,7 @@ func c10Run(c *fw.Ctx) error {
 		maxFiles, maxDocs = 2, 3
 	}
 	hist := c10Histories(maxFiles, maxDocs)
-	c.Res.Bound = fmt.Sprintf("%d histories (<= %d files x 0..%d documents over a %d-document alphabet, incl. empty files) x %d expressions x {default, -N} on the real binary; the same histories as JSON value streams (-p json -o yaml) x 9 expressions; plus eval vs eval-all on every single-document input", len(hist), maxFiles, maxDocs, len(c10Alphabet), len(c10Exprs))
+	c.Res.Bound = fmt.Sprintf("%d histories (<= %d files x 0..%d documents over a %d-document alphabet, incl. empty files) x %d expressions x {default, -N; --header-preprocess=false for 5 of them} on the real binary; the same histories as JSON value streams (-p json -o yaml) x 9 expressions; plus eval vs eval-all on every single-document input", len(hist), maxFiles, maxDocs, len(c10Alphabet), len(c10Exprs))
 	var idx int64
 	for _, jsonIn := range []bool{false, true} {
 		exprs := c10Exprs
@@ -361,7 +366,34 @@ func c10Run(c *fw.Ctx) error {
 		}
 		for hi, h := range hist {
 			for _, e := range exprs {
-				for _, flags := range [][]string{nil, {"-N"}} {
+				for _, flags := range [][]string{nil, {"-N"}, {"--header-preprocess=false"}} {
+					if len(flags) > 0 && flags[0] == "--header-preprocess=false" {
+						// only where a header comment exists, and for a handful of expressions
+						commented := false
+						for _, f := range h {
+							for _, a := range f {
+								if strings.HasPrefix(c10Alphabet[a].Text, "#") {
+									commented = true
+								}
+							}
+						}
+						if jsonIn || !commented || !(e == "." || e == ".a" || e == "select(.a)" || e == "document_index" || e == "length") {
+							continue
+						}
+					}
+					if jsonIn {
+						skip := false
+						for _, f := range h {
+							for _, a := range f {
+								if a >= len(c10JSONAlphabet) {
+									skip = true
+								}
+							}
+						}
+						if skip {
+							continue
+						}
+					}
 					idx++
 					if !c.Mine(idx) {
 						continue
